@@ -10,14 +10,18 @@ addressed with somebody else's index paths.
 
 The model follows that literally: `Registry` is an association list keyed by name, `registerT` is
 `registerComposer(rt, nil)`, `indexType` is `indexType`, `recomp` threads the registry through the
-recursion. A panic (`Recompose` recovers it into an error) is `none`; the registry keeps what was
+recursion. A panic (`Recompose` recovers it into an error) is `Slot.panic`; the registry keeps what was
 entered before the panic. Reflect's conversions are modelled for the data Decompose and the parser
 produce; conversions Go performs in odd ways (a number into a string field …) answer `outside`
 (`Slot.outside`), they only arise when a foreign index is applied.
 
-`Dev.bareName` carries the deviation from C16: `true` is the code as it is, `false` the proposed
-repair (use a composer found under the bare name only when it was made for this very type, otherwise
-register the type under its full name). -/
+The flag `bareName` carries the deviation from C16: `true` is the code as it is, `false` the proposed
+repair (notes/proposed_fixes/C16_registry_bare_name.md): a composer found under a name — the bare
+name in `recomp`, the full name in `registerComposer` — is used only when it was made for this
+very type (`c.rtype == rv.Type()`, here `typeBeq`); otherwise the type is registered, which replaces
+the foreign entry. `recBody`/`recompG` take the composer lookup as a parameter, so that the same
+traversal runs with the real registry (`composerFor`) and with an ideal one (`composerPure`: every
+struct type is decoded with its own field index) — the theorems of `Props/C16.lean` compare the two. -/
 namespace OjgVerif.Reflect
 open OjgVerif
 
